@@ -101,8 +101,12 @@ pub fn c12(args: &[String]) {
                 continue;
             }
             pest::set_call_limit(None);
-            let oinf = run_vm(&vm, start, inp);
-            let rinf = canon(&oinf);
+            // this parse finished within n calls under a limit; without one it has to finish too - a run that
+            // does not return is recorded as such (its own result, equal to no limited result)
+            let rinf = match run_vm_watchdog(text, start, inp, 20) {
+                Some(oinf) => canon(&oinf),
+                None => "NO-RETURN without a limit".to_string(),
+            };
             let mut sweep = vec![];
             for l in 1..=(n + 3) {
                 pest::set_call_limit(NonZeroUsize::new(l as usize));
@@ -175,4 +179,55 @@ pub fn c15(args: &[String]) {
     }
     w.flush().unwrap();
     println!("{}", json!({"cases": id, "failing_parses": fails, "dropped": dropped, "grammars": src.grammars.len()}));
+}
+
+/// `vh entries-emit [--cases FILE | --seed ..] --out FILE`: the rule entries a listener on the real VM is told
+/// about (C17: "the breakpoint hits of the parse"), per (grammar, start, input), together with the optimized
+/// rules the VM runs, for validation against the entry log of the TLA+ semantics (Trace_Entries).
+pub fn entries(args: &[String]) {
+    use std::sync::{Arc, Mutex};
+    silence_panics();
+    let out = arg(args, "--out").expect("--out");
+    let src = sources(args, 6);
+    let mut w = writer(&out);
+    let (mut id, mut dropped, mut ncases, mut nentries) = (0u64, 0u64, 0u64, 0u64);
+    let uni = crate::c01::uni_table(&gen::ALPHA);
+    for (text, cs) in &src.grammars {
+        pest::set_call_limit(None);
+        let opt = match guarded(|| front_end(text)) {
+            Ok(Ok((_, o))) => o,
+            _ => continue,
+        };
+        let g = opt_rules_json(&opt);
+        pest::set_call_limit(NonZeroUsize::new(20000));
+        let log: Arc<Mutex<Vec<(String, usize)>>> = Arc::new(Mutex::new(vec![]));
+        let l2 = Arc::clone(&log);
+        let vm = pest_vm::Vm::new_with_listener(
+            opt,
+            Box::new(move |rule, pos| {
+                l2.lock().unwrap().push((rule, pos.pos()));
+                false
+            }),
+        );
+        let mut recs = vec![];
+        for (start, inp) in cs {
+            log.lock().unwrap().clear();
+            let o = run_vm(&vm, start, inp);
+            let ents = log.lock().unwrap().clone();
+            if o["limit_reached"] == true || o["calls"].as_u64().unwrap_or(0) > 3000 || ents.len() > 400 {
+                dropped += 1;
+                continue;
+            }
+            ncases += 1;
+            nentries += ents.len() as u64;
+            recs.push(json!({"start": start, "inp": cps(inp), "k": o["k"],
+                             "entries": ents.iter().map(|(r, p)| json!({"r": r, "p": p})).collect::<Vec<_>>()}));
+        }
+        if !recs.is_empty() {
+            id += 1;
+            wl(&mut w, &json!({"id": id, "text": text, "g": g, "uni": uni, "extras": EXTRAS, "cases": recs}));
+        }
+    }
+    w.flush().unwrap();
+    println!("{}", json!({"grammars": id, "cases": ncases, "entries": nentries, "dropped": dropped}));
 }
